@@ -224,6 +224,38 @@ def solver_cases(report):
     return n
 
 
+def qobjevo_cases(report):
+    """QobjEvo.__call__ (site qobjevo_call): time-dependent operators with 1-3
+    terms whose operators have their flags cached or not, and coefficients that
+    are real / complex / zero at the evaluation time, in every position."""
+    import qutip
+    P = pool()
+    ops = ["X", "Z", "N", "Y", "iZ", "P0", "O"]
+    coeffs = {"r": lambda t: 0.5 * t, "c": lambda t: 0.5j * t, "m": lambda t: (1 + 1j) * t,
+              "z": lambda t: 0.0 * t, "rc": lambda t: complex(0.25 * t)}
+    n = 0
+    for nterms in (1, 2, 3):
+        for names in itertools.product(ops[:5] if nterms == 3 else ops, repeat=nterms):
+            if nterms == 3 and len(set(names)) < 2:
+                continue
+            for cs in itertools.product(sorted(coeffs), repeat=nterms):
+                if nterms == 3 and (n % 7):       # thin out the largest stratum
+                    n += 1
+                    continue
+                for cache in ("herm", "none"):
+                    terms = [[mk(P[a], cache), coeffs[c]] for a, c in zip(names, cs)]
+                    for lead in (False, True):     # with / without a constant first term
+                        lst = ([mk(P["Z"], cache)] if lead else []) + terms
+                        try:
+                            q = qutip.QobjEvo(lst)(2.0)
+                        except Exception:
+                            continue
+                        n += 1
+                        check_flags(q, "qobjevo.__call__", report,
+                                    ["QobjEvo", list(names), list(cs), cache, "lead" if lead else "nolead"])
+    return n
+
+
 def run_oracle(seed, budget_chains, report, count=None, only=None):
     """Depth-1 exhaustive over pool x cache states x operations, then random
     chains (depth 2-4) with random reads in between.  report(where, flag,
@@ -306,4 +338,5 @@ def run_oracle(seed, budget_chains, report, count=None, only=None):
         if count:
             count(tuple(map(str, hist)))
     n += solver_cases(report)
+    n += qobjevo_cases(report)
     return n
